@@ -170,18 +170,30 @@ def propagate_attribute_aliases(tree) -> int:
         aliases = {}
         for n in _walk_function(fn):
             if isinstance(n, ast.Assign) and len(n.targets) == 1 and isinstance(n.targets[0], ast.Name) \
-                    and isinstance(n.value, ast.Attribute):
+                    and isinstance(n.value, (ast.Attribute, ast.UnaryOp, ast.BoolOp, ast.Compare)):
                 t = n.targets[0].id
-                root = n.value
-                while isinstance(root, ast.Attribute):
-                    root = root.value
-                if not isinstance(root, ast.Name) or t in params or stores.get(t) != 1 or t in nested_stores:
+                if t in params or stores.get(t) != 1 or t in nested_stores:
                     continue
-                r = root.id
-                if r == t or r in nested_stores:
+                # pure: attribute chains, stable names, constants, not / and / or / comparisons - nothing is called
+                pure = True
+                roots = set()
+                for x in ast.walk(n.value):
+                    if isinstance(x, ast.Name):
+                        roots.add(x.id)
+                    elif not isinstance(x, (ast.Attribute, ast.Constant, ast.UnaryOp, ast.BoolOp, ast.Compare, ast.expr_context,
+                                            ast.boolop, ast.unaryop, ast.cmpop)):
+                        pure = False
+                        break
+                if not pure or not roots or (isinstance(n.value, ast.UnaryOp) and not isinstance(n.value.op, ast.Not)):
                     continue
-                if not (r in ("self", "cls", "mcs") or (r in params and stores.get(r, 0) == 0) or stores.get(r, 0) == 1
-                        or (r not in params and stores.get(r, 0) == 0)):
+                stable = True
+                for r in roots:
+                    if r == t or r in nested_stores:
+                        stable = False
+                    elif not (r in ("self", "cls", "mcs") or (r in params and stores.get(r, 0) == 0) or stores.get(r, 0) == 1
+                              or (r not in params and stores.get(r, 0) == 0)):
+                        stable = False
+                if not stable:
                     continue
                 aliases[t] = (n, n.value)
         if not aliases:
